@@ -165,6 +165,7 @@ func runC12(s *kernel.Sim) {
 			if err != nil && !untyped {
 				s.Violate("R1", "plugin-error", "OnResponse error: %v", err)
 			}
+			hdr["x-added-later"] = "1" // a later remedy of the chain edits the response's headers in place
 			return
 		}
 		st.status, st.ttl = 200, time.Duration(ttlS)*time.Second
@@ -174,6 +175,7 @@ func runC12(s *kernel.Sim) {
 		if err != nil {
 			s.Violate("R1", "plugin-error", "OnResponse error: %v", err)
 		}
+		hdr["x-added-later"] = "1" // a later remedy of the chain edits the response's headers in place
 	}
 	// half of the runs: replayed responses take the way they take through the dispatcher
 	viaDispatcher := tp.Chance(1, 2)
@@ -243,6 +245,9 @@ func runC12(s *kernel.Sim) {
 		}
 		if throttling && st.status != 429 && st.status != 503 {
 			s.Violate("R1", "irrelevant-status-stored", "request %s answered from a stored response with status %d, relevant statuses are 429/503", keyStr(k), st.status)
+		}
+		if _, late := er.Headers["x-added-later"]; late {
+			s.Violate("R1", "replay-carries-what-the-provider-never-sent", "request %s: the replayed response carries a header that a later remedy added to the transaction's response after it had been stored", keyStr(k))
 		}
 		if er.Status != st.status {
 			s.Violate("R1", "wrong-status", "replayed status %d, stored %d", er.Status, st.status)
@@ -461,6 +466,13 @@ func runC12(s *kernel.Sim) {
 			}
 			inGroup = false
 			s.FaultFired("concurrent_group")
+		}
+		// every operation has returned: none of them may have kept a lock of the cache
+		// (the next operation would wait for it for ever)
+		s.Rule("R1")
+		if d := s.LeakedLocks(); d != "" {
+			s.Violate("R1", "lock-kept-after-the-operation-returned", "after the operations of step %d: %s", op, d)
+			return
 		}
 		if tp.Chance(1, 4) {
 			probeAll()
